@@ -146,7 +146,7 @@ theorem rowsToVec_at (r : WsRows) (j : Nat) : vecAt (rowsToVec r) j = (r.find? (
       simp only [rowsMaxId] at hj
       omega
 
-theorem find?_filter_ne (r : WsRows) (i j : Nat) (h : j ≠ i) :
+theorem rows_find?_filter_ne (r : WsRows) (i j : Nat) (h : j ≠ i) :
     (r.filter (fun p => p.1 != i)).find? (fun p => p.1 == j) = r.find? (fun p => p.1 == j) := by
   induction r with
   | nil => rfl
@@ -200,10 +200,10 @@ theorem C16_rows_set_vec (r : WsRows) (i : Nat) (x : Option Nat) (j : Nat) :
         Option.none_or]
       rfl
   · cases x with
-    | none => simp only [rowsSet, h, if_false, find?_filter_ne r i j h]
+    | none => simp only [rowsSet, h, if_false, rows_find?_filter_ne r i j h]
     | some u =>
       have hij : (i == j) = false := by simp only [beq_eq_false_iff_ne]; exact fun e => h e.symm
-      simp only [rowsSet, h, if_false, List.find?_append, find?_filter_ne r i j h, List.find?_cons, hij,
+      simp only [rowsSet, h, if_false, List.find?_append, rows_find?_filter_ne r i j h, List.find?_cons, hij,
         List.find?_nil, Option.or_none]
 
 end Tc
